@@ -66,6 +66,14 @@ Definition reg3_x (x : xlink) (now : Z) : xlink :=
   {| waiting := waiting x; ph := PWarming 0 now;
      established := if established x =? 0 then now else established x; fails := 0 |}.
 
+(** REG3 arm on the accounting fields: clear_pre_registration_state (log, in-flight,
+    high-water mark, congestion state, and — since the fix "REG3 state clear restores the
+    default window" — the window) + connected/last_received as process_uplink_packet sets them.
+    The delivery-proof stamp is not touched. *)
+Definition reg3_link (c : link) (now : Z) : link :=
+  {| cid := cid c; connected := true; window := WINDOW_DEFAULT; in_flight := 0; log := [];
+     hwm := i32_min; last_recv := Some now; proof := proof c; cg := cong0; ovf := ovf c |}.
+
 (** SrtlaIncoming (reg1_send is uplink-side I/O and not part of the return path) *)
 Record incoming := { i_fwd : list wd; i_acks : list Z; i_naks : list Z; i_sacks : list Z }.
 Definition inc0 : incoming := {| i_fwd := []; i_acks := []; i_naks := []; i_sacks := [] |}.
@@ -82,7 +90,7 @@ Definition process_uplink_packet (c : link) (x : xlink) (k : bool) (w : wd) (now
     match reg_classify pt with
     | Some RegNgp => Ok (c, x, inc0, [])
     | Some Reg2 => Ok (c, x, inc0, [])
-    | Some Reg3 => Ok (reg3_clear c now, reg3_x x now, inc0, [])
+    | Some Reg3 => Ok (reg3_link c now, reg3_x x now, inc0, [])
     | Some RegErr => Ok (set_conn c false None, x, inc0, [])
     | None =>
       let c1 := set_conn c (connected c) (Some now) in
